@@ -100,6 +100,7 @@ static int incnum;
 
 static function_context_t function_context_stack[MAX_FUNCTION_DEPTH];
 static int last_function_context;
+static int function_context_overflow;	/* pushes refused by push_function_context() and not yet popped */
 function_context_t *current_function_context = 0;
 
 /*
@@ -1222,6 +1223,7 @@ void push_function_context () {
   if (last_function_context == MAX_FUNCTION_DEPTH - 1)
     {
       yyerror ("Function pointers nested too deep");
+      function_context_overflow++;	/* the grammar still pops once for this push */
       return;
     }
   fc = &function_context_stack[++last_function_context];
@@ -1239,6 +1241,11 @@ void push_function_context () {
 }
 
 void pop_function_context () {
+  if (function_context_overflow)
+    {
+      function_context_overflow--;
+      return;
+    }
   current_function_context = current_function_context->parent;
   last_function_context--;
 }
@@ -2567,6 +2574,7 @@ void start_new_file (int fd, const char* pre_text) {
   yyin_desc = fd; /* lexer input file descriptor */
   lex_fatal = 0;
   last_function_context = -1;
+  function_context_overflow = 0;
   current_function_context = 0;
   cur_lbuf = &head_lbuf;
   cur_lbuf->outptr = cur_lbuf->buf_end = outptr = cur_lbuf->buf + (DEFMAX >> 1);
